@@ -210,20 +210,27 @@ FILTERS = [
     ('(${%%n_subsets} if ${%%is_compressed} else -1) > %(ns)d', lambda h, a: (h['n_subsets'] if h['is_compressed'] else -1) > a['ns']),
     ('list(filter(lambda v: v == ${%%master_table_version}, [%(ver)d])) == [%(ver)d]',
      lambda h, a: h['master_table_version'] == a['ver']),
+    # fields outside sections 1-3: section 0 and the header of section 4 (a metadata-only decode has both)
+    ('${%%4.section_length} < %(l4)d', lambda h, a: h['4.section_length'] < a['l4']),
+    ('${%%0.length} >= %(len)d', lambda h, a: h['length'] >= a['len']),
+    ('${%%4.section_length} + ${%%3.section_length} > %(l34)d', lambda h, a: h['4.section_length'] + h['3.section_length'] > a['l34']),
 ]
+OUTSIDE_1_3 = [i for i, f in enumerate(FILTERS) if '%%length' in f[0] or '%%4.' in f[0] or '%%0.' in f[0]]
 
 
-def gen_filter(rng, items):
-    idx = rng.randrange(len(FILTERS))
+def gen_filter(rng, items, among=None):
+    idx = rng.choice(among) if among else rng.randrange(len(FILTERS))
     hs = [header_truth(bytes.fromhex(it['hex'])) for it in items] or [{'data_category': 0, 'n_subsets': 1,
                                                                       'edition': 4, 'master_table_version': 13,
                                                                       'length': 100, 'originating_subcentre': 0,
-                                                                      '1.section_length': 22, '3.section_length': 9}]
+                                                                      '1.section_length': 22, '3.section_length': 9,
+                                                                      '4.section_length': 4}]
     h = rng.choice(hs)
     args = {'cat': h['data_category'], 'ns': max(0, h['n_subsets'] - rng.randint(0, 1)), 'ed': h['edition'],
             'ver': h['master_table_version'], 'len': h['length'] + rng.choice([0, 1]),
             'sub': h['originating_subcentre'] or 0, 'l1': h['1.section_length'] - rng.choice([0, 1]),
-            'l3': h['3.section_length'] + rng.choice([0, 1])}
+            'l3': h['3.section_length'] + rng.choice([0, 1]), 'l4': h.get('4.section_length', 4) + rng.choice([0, 1]),
+            'l34': h.get('4.section_length', 4) + h['3.section_length'] - rng.choice([0, 1])}
     return {'idx': idx, 'args': args, 'expr': FILTERS[idx][0] % args}
 
 
@@ -321,6 +328,27 @@ def no_defs(e):
     return 'D' not in e['cls']
 
 
+_KIN = {}
+
+
+def _kin_groups(pool):
+    """groups of small pool messages with octet-identical sections 1-3 and at least two different total lengths"""
+    key = id(pool)
+    if key not in _KIN:
+        by = {}
+        for e in pool:
+            if e['adm']['full']['n'] > 3000 or 'D' in e['cls']:
+                continue
+            raw = bytes.fromhex(e['hex'])
+            w = bufrgen.walk(raw)
+            if not w or 4 not in w['sections']:
+                continue
+            by.setdefault(raw[8:w['sections'][4][0]], []).append(e)
+        _KIN.clear()
+        _KIN[key] = [g for _k, g in sorted(by.items()) if len(set(len(x['hex']) for x in g)) >= 2]
+    return _KIN[key]
+
+
 _HAS_221 = {}
 
 
@@ -367,6 +395,17 @@ def _gen_plan(family, rng, pool, tier):
         else:
             pred = small
         items = [_item(e) for e in _pick(rng, pool, n, pred)]
+        kin = None
+        if rng.random() < 0.12:
+            # 'kin': messages whose sections 1-3 are octet-identical and which differ elsewhere (data twins: one
+            # descriptor list, other replication counts, so other lengths) - whatever is remembered per header
+            # must not stand in for what sections 0 and 4 say; always scanned under a filter on those
+            groups = _kin_groups(pool)
+            if groups:
+                g = groups[rng.randrange(len(groups))]
+                kin = [_item(rng.choice(g)) for _ in range(rng.randint(2, 5))]
+                items = kin + items[:rng.randint(0, 2)]
+                rng.shuffle(items)
         if rng.random() < 0.2:
             # a (synthetic) table-definition message somewhere in the stream: it is a message like any
             # other for splitting and filtering; its definitions concern ids no other message uses
@@ -382,9 +421,15 @@ def _gen_plan(family, rng, pool, tier):
         mode = 'info' if front in ('cli-info-m', 'cli-info-c', 'cli-split') else \
             ('full' if front == 'cli-decode' else rng.choice(MODES))
         flt = gen_filter(rng, items) if (front in ('api', 'cli-decode') and rng.random() < 0.4) else None
+        if kin:
+            front = rng.choice(['api', 'api', 'cli-decode'])
+            mode = 'full' if front == 'cli-decode' else rng.choice(MODES)
+            flt = gen_filter(rng, kin, among=OUTSIDE_1_3)
         knobs = {'mode': mode, 'coe': rng.random() < 0.5, 'front': front,
                  'compiled': rng.choice([None, None, 2, 0]) if front in ('api', 'cli-decode') else None,
                  'filter': flt}
+        if kin:
+            knobs['kin'] = True
         if front == 'api' and rng.random() < 0.25:
             knobs['wire'] = False       # no hierarchical structure is built (what decode -m does)
         return {'knobs': knobs, 'items': items, 'seps': seps}
